@@ -7,8 +7,15 @@ Stages of run():
      followed by default_initialization()) followed by a probe call; the probe's result must equal the result in
      a fresh interpreter (tools/impl_hist.py).
   C  free-running thread stress in fresh processes (first calls race on the initialisation).
+  D  interrupted first initialisation: the first call is interrupted by an exception after k initialisation
+     statements (injected at the translator's statement sites) or made close to the recursion limit (natural);
+     the state left is compared with the model (xinit) and a later probe with a fresh interpreter.
 search(): when the proof obligation on the generated program breaks (prog_well_locked) -> BFS over the model's
-schedules for a violating one, replayed on real threads; when the inventory obligation breaks -> long histories."""
+schedules for a violating one, replayed on real threads; when the inventory obligation breaks -> long histories.
+
+The translated program has one of two shapes (coq/theories/Sys/Singleton.v: publish-then-initialise, the shape of
+finding KF-C20-1, and initialise-then-publish, its repair); nothing here depends on which: the instruction list,
+its source sites and the flag `publishes_before_init` come from the translator's side file on every run."""
 import collections
 import json
 import random
@@ -22,7 +29,9 @@ from props import common
 THEOREMS = [
     'Props/C20.v: C20_sched_init_safe (forall n sched t o: a thread that has returned holds a fully initialised lexer)',
     'C20_sched_init_safe_later, C20_sched_same_instance, C20_sched_single_init, C20_sched_never_replaced, '
-    'C20_sched_no_violation -- all thread counts, all schedules of the generated program',
+    'C20_sched_no_violation -- all thread counts, all schedules of the generated program; C20_sched_any_well_locked: the same '
+    'for ANY program accepted by well_locked, i.e. for both shapes (publish-then-initialise / initialise-then-publish); '
+    'C20_sched_prog_shape: the generated program is old_prog or new_prog over its own body',
     'C20_sched_no_deadlock_fair_partial (every schedule made of >= n*|prog| fair blocks terminates with the instance)',
     'C20_sched_default_cfg (the lexer handed to racing first calls has the configuration of a fresh process)',
     'C20_hist_calls_pure / _eff (calls, raising calls, abandoned generators never change the configuration)',
@@ -31,9 +40,16 @@ THEOREMS = [
     'C20_hist_concurrent_calls, C20_hist_reads_stable (calls of other threads in between: no effect)',
     'C20_hist_needs_default (sharpness: clear() followed by nothing IS visible)',
     'C20_state_inventory(_full): forallb state_ok Gen.StateInv.bindings = true (vm_compute over the generated inventory)',
-    'Sys/SingletonFacts.v: C20_unlocked_refuted, C20_unlocked_two_instances_refuted, C20_early_release_refuted',
-    'Sys/HistoryXFacts.v: C20_xhistory_refuted(_silent) -- the history statement is FALSE when an exception interrupts the '
-    'first initialisation (KF-C20-1); C20_xhistory_partial: it holds for every history outside that class',
+    'Sys/SingletonFacts.v: C20_unlocked_refuted, C20_unlocked_two_instances_refuted, C20_early_release_refuted (publish-first '
+    'shape without the lock / early release); publish-last shape without the lock: C20_unlocked_new_two_instances_refuted, '
+    'C20_unlocked_new_replaced_refuted, but C20_unlocked_new_init_safe HOLDS (all thread counts, all schedules)',
+    'interrupted first initialisation, decided by the generated flag publishes_before_init (= publishes_before_initb prog, '
+    'publishes_flag_ok): C20_hist_interrupted_init_refuted_if_publishes (flag = true -> the history statement is FALSE: '
+    'KF-C20-1), C20_hist_history_if_publishes_last (flag = false -> it holds UNCONDITIONALLY, interrupted first initialisations '
+    'included), C20_hist_interrupted_init_dichotomy, C20_hist_history_partial / _guarded (every history outside the class of '
+    'the finding, both shapes); generic: C20_hist_new_shape_publishes_last, C20_hist_old_shape_publishes_first',
+    'which case holds NOW: Inst/C20Finding.v (C20_publishes_before_init_now, C20_xhistory_refuted) while KF-C20-1 is open; '
+    'Inst/C20Fixed.v (C20_publishes_last_now, C20_xhistory unconditional) once it is fixed -- exactly one is listed in _CoqProject',
 ]
 TRUSTED = [
     'one Python statement of get_default_instance/default_initialization = one atomic model instruction '
@@ -101,7 +117,7 @@ def sched_jobs(ctx, side):
 def stage_sched(ctx, res):
     side = impl_sched.load_side()
     pa = impl_sched.prog_arg(side)
-    gen = vlib.run_model(['schedprog', 'welllocked gen'])
+    gen = vlib.run_model(['schedprog', 'welllocked gen', 'progshape gen'])
     if gen[0] != pa:
         res['disagreements'].append({'stage': 'sched-prog', 'detail': 'extracted program differs from the side file',
                                      'model': gen[0], 'side': pa})
@@ -110,6 +126,8 @@ def stage_sched(ctx, res):
     res['disagreements'] += dis[:20]
     res['failures'] += impl_sched.property_failures(jobs, real)[:3]
     info['well_locked(gen)'] = gen[1]
+    info['shape(gen)'] = gen[2]
+    info['publishes_before_init(translator)'] = side.get('publishes_before_init')
     info.update({k: int(v) for k, v in stats.items()})
     return info, sum(len(s) for _, s in jobs), len(jobs)
 
@@ -295,13 +313,25 @@ def stage_interrupted(ctx, res, model=True):
     ks = list(range(0, n + 2))
     margins = ctx.n([4, 6, 8, 11, 14, 18, 22, 27, 33, 45], list(range(1, 60)))
     fails, states, nat = interrupted_failures(ks, margins)
+    flag = None
     if model:
         replies = vlib.run_model([f'xinit {k}' for k in ks])
         for (k, st, r), rep in zip(states, replies):
             if st != rep:
                 res['disagreements'].append({'stage': 'interrupted-init', 'k': k, 'model': rep, 'impl': st, 'detail': str(r)[:200]})
+        # the flag the conditional theorems are about: translator (syntactic) vs model (semantic) vs what the injected
+        # interruptions actually left behind on the implementation
+        flag = vlib.run_model(['xinitflag'])[0]
+        side = impl_sched.load_side()
+        tr = 'true' if side.get('publishes_before_init') else 'false'
+        full = vlib.run_model([f'xinit {n}'])[0]
+        impl_flag = 'true' if any(st not in ('none', full) for _, st, _ in states) else 'false'
+        if not (flag == tr == impl_flag):
+            res['disagreements'].append({'stage': 'interrupted-init-flag', 'model': flag, 'translator': tr,
+                                         'implementation': impl_flag,
+                                         'detail': 'publishes_before_init: model / translator / implementation disagree'})
     res['failures'] += fails
-    return {'injection_points': len(ks), 'natural_margins': len(margins), 'states_left': sorted({str(s) for _, s, _ in states}),
+    return {'injection_points': len(ks), 'publishes_before_init': flag, 'natural_margins': len(margins), 'states_left': sorted({str(s) for _, s, _ in states}),
             'natural_states_left': sorted({str(s) for _, s, _ in nat}), 'property_failures': len(fails)}, len(ks) + len(margins)
 
 
@@ -314,10 +344,24 @@ def classify(fl, kf):
     return None
 
 
+REDERIVED = {}
+
+
 def rederive_known(k):
+    """KF-C20-1 is re-derived on the implementation on every run: a first call interrupted after 1 and after 3
+    initialisation statements (injected) and first calls made 8..22 frames below the recursion limit (natural).
+    Returns the first failure, or None when the finding no longer reproduces (repaired library: the interrupted
+    initialisation leaves `_default_instance = None` and the next call initialises from scratch)."""
     if k.get('id') != KF_ID:
         return None
-    fails, _, _ = interrupted_failures([1, 3], [8, 14, 18, 22])
+    fails, states, nat = interrupted_failures([1, 3], [8, 14, 18, 22])
+    REDERIVED[KF_ID] = {'reproduces': bool(fails), 'states_left': sorted({str(s) for _, s, _ in states}),
+                        'natural_states_left': sorted({str(s) for _, s, _ in nat})}
+    if not fails:
+        import sys
+        print(f'NOTE: {KF_ID} no longer reproduces on this library (state left by an interrupted first initialisation: '
+              f"{REDERIVED[KF_ID]['states_left']}, near the recursion limit: {REDERIVED[KF_ID]['natural_states_left']})",
+              file=sys.stderr)
     return fails[0] if fails else None
 
 
@@ -325,7 +369,8 @@ def rederive_known(k):
 def stage_selftest(ctx, res):
     """the machinery must reject broken variants (patched temp copies; /repo is never touched)"""
     info = {}
-    kinds = ctx.n(('nolock', 'same'), ('nolock', 'early_release', 'dcl', 'same'))
+    kinds = ctx.n(('nolock', 'same', 'nolock_new', 'same_new'),
+                  ('nolock', 'early_release', 'dcl', 'same', 'nolock_new', 'same_new'))
     rep = impl_sched.variant_selftest(kinds=kinds, nrandom=ctx.n(40, 200), seed=ctx.seed)
     for kind, r in rep.items():
         bad = None
@@ -333,12 +378,12 @@ def stage_selftest(ctx, res):
             bad = 'translator failed on the variant: ' + r['translator']
         elif r['ndis']:
             bad = f"model/real-thread disagreement on variant: {r['correspondence_disagreements'][:1]}"
-        elif kind == 'same':
-            if r['well_locked'] != 'true' or r['search']['found'] or r['random_schedules_with_real_failure']:
+        elif kind in ('same', 'same_new'):
+            if r['well_locked'] != 'true' or r.get('shape') != {'same': 'publish-first', 'same_new': 'publish-last'}[kind] or r['search']['found'] or r['random_schedules_with_real_failure']:
                 bad = 'control variant not accepted'
         elif r['well_locked'] != 'false' or not r['search'].get('confirmed'):
             bad = 'broken variant not rejected (well_locked=%s, search=%s)' % (r['well_locked'], str(r['search'])[:200])
-        info['sched:' + kind] = {'well_locked': r.get('well_locked'), 'violating_schedule': (r.get('search', {}).get('found') or {}).get('schedule'),
+        info['sched:' + kind] = {'well_locked': r.get('well_locked'), 'shape': r.get('shape'), 'violating_schedule': (r.get('search', {}).get('found') or {}).get('schedule'),
                                  'confirmed_on_real_threads': r.get('search', {}).get('confirmed'),
                                  'random_schedules': r.get('stats', {}).get('schedules')}
         if bad:
